@@ -77,7 +77,7 @@ def run_property(pid, repo, tier):
     elif tier == "thorough":
         extra = {"selftest": {"skipped": "the tree under analysis violates the property; variants of it are not meaningful", "passed": 0, "total": 0, "failed": []}}
     path, vpath = report.write_evidence(
-        ctx, mod.EXPLANATION, COMMON_ASSUMPTIONS + list(getattr(mod, "ASSUMPTIONS", [])), known, new, extra=extra)
+        ctx, mod.EXPLANATION + (" " + mod.EXACTNESS if getattr(mod, "EXACTNESS", "") else ""), COMMON_ASSUMPTIONS + list(getattr(mod, "ASSUMPTIONS", [])), known, new, extra=extra)
     return ctx, known, new, path, vpath, extra
 
 
